@@ -306,7 +306,7 @@ impl DebuggingRecorder {
 //@AFTER 1 let mut metadata = self.inner.metadata.lock()
         let ghost m0 = (*mguarded(&metadata))@;
         let ghost o0 = (*mguarded(&metadata)).order();
-//@AFTER 1 *dentry = desc;
+//@BODYEND
         // unit and description are the most recent ones given for this (kind, name); a description WITHOUT a unit keeps the
         // earlier unit; no other entry changes; the order of first description is kept
         proof {
